@@ -27,14 +27,19 @@ static void emit(rstream *s,const unsigned char *p,int len){ if(s->n>=MAXPK||len
 /* `joint` streams (one in three): speech-layer streams of voiced material in which internal bandwidth and frame duration are re-drawn
    TOGETHER at every switch point, so that every ordered pair of (8/12/16 kHz internal rate, 10/20/40/60 ms) decoder configurations
    follows each other directly (state that is keyed on a product of the two, e.g. samples per frame, only shows on such pairs) */
-static void make_ref_stream(vc_rng *r,rstream *s,int want_ms,char *desc,size_t dn){ int err; int joint=vc_chance(r,1,3); static const int jr[3]={16000,24000,48000}; int eFs=joint?VC_PICK(r,jr):VC_PICK(r,vk_rates), ch=1+vc_below(r,2), app=joint?vk_apps[vc_below(r,2)]:VC_PICK(r,vk_apps); OpusEncoder *e=ref_opus_encoder_create(eFs,ch,app,&err); if(!e){ fprintf(stderr,"ref encoder create %d\n",err); exit(3); }
+static void make_ref_stream(vc_rng *r,rstream *s,int want_ms,char *desc,size_t dn){ int err; int joint=vc_chance(r,1,3); static const int jr[3]={16000,24000,48000}; int eFs=joint?VC_PICK(r,jr):VC_PICK(r,vk_rates), ch=1+vc_below(r,2), app=joint?vk_apps[vc_below(r,2)]:VC_PICK(r,vk_apps);
+  /* starved layers: forced-stereo hybrid (or MDCT-only) at very low rates, where the bit allocation works at its thresholds (skip flags, intensity, minimum band budgets) */
+  int starve=!joint&&vc_chance(r,1,7); if(starve){ eFs=vc_chance(r,3,4)?48000:24000; ch=vc_chance(r,4,5)?2:1; app=vc_chance(r,2,3)?OPUS_APPLICATION_VOIP:OPUS_APPLICATION_AUDIO; vc_count("starved_layer_streams",1); }
+  OpusEncoder *e=ref_opus_encoder_create(eFs,ch,app,&err); if(!e){ fprintf(stderr,"ref encoder create %d\n",err); exit(3); }
   int mode=vc_chance(r,1,4)?OPUS_AUTO:VK_MODE_SILK+(int)vc_below(r,3); if(joint) mode=vc_chance(r,3,5)?VK_MODE_HYBRID:vc_chance(r,1,2)?VK_MODE_SILK:OPUS_AUTO; /* a forced hybrid mode falls back to the speech layer alone at <= WB and makes its internal rate jump 8/12 -> 16 kHz in one packet */ ref_opus_encoder_ctl(e,VK_SET_FORCE_MODE_REQUEST,mode); int br=vc_chance(r,1,8)?vc_range(r,6000,12000):vc_chance(r,1,8)?vc_range(r,200000,510000):vc_range(r,12000,128000)*ch; ref_opus_encoder_ctl(e,OPUS_SET_BITRATE(br));
+  if(starve){ mode=vc_chance(r,3,4)?VK_MODE_HYBRID:VK_MODE_CELT; ref_opus_encoder_ctl(e,VK_SET_FORCE_MODE_REQUEST,mode); if(ch==2) ref_opus_encoder_ctl(e,OPUS_SET_FORCE_CHANNELS(2)); ref_opus_encoder_ctl(e,OPUS_SET_BANDWIDTH(eFs==48000?(vc_chance(r,2,3)?OPUS_BANDWIDTH_FULLBAND:OPUS_BANDWIDTH_SUPERWIDEBAND):OPUS_BANDWIDTH_SUPERWIDEBAND)); ref_opus_encoder_ctl(e,OPUS_SET_BITRATE(vc_range(r,10000,26000))); }
   if(vc_chance(r,1,3)){ ref_opus_encoder_ctl(e,OPUS_SET_INBAND_FEC(1)); ref_opus_encoder_ctl(e,OPUS_SET_PACKET_LOSS_PERC(20)); } if(vc_chance(r,1,6)) ref_opus_encoder_ctl(e,OPUS_SET_DTX(1)); if(vc_chance(r,1,4)) ref_opus_encoder_ctl(e,OPUS_SET_VBR(0)); ref_opus_encoder_ctl(e,OPUS_SET_COMPLEXITY(vc_below(r,11)));
-  int sig=vc_below(r,VS_NFINITE); if(joint) sig=vc_chance(r,1,2)?VS_VOICED:VS_SPEECHLIKE; vc_siggen g; vs_init(&g,sig,eFs,ch,(float)(0.1+0.8*vc_unit(r)),vc_next(r)); int fidx=vc_below(r,9); if(joint){ fidx=2+(int)vc_below(r,4); ref_opus_encoder_ctl(e,OPUS_SET_BANDWIDTH(OPUS_BANDWIDTH_NARROWBAND+(int)vc_below(r,5))); } static float in[5760*2]; static unsigned char buf[1500], grp[1277*48+200]; OpusRepacketizer *rp=ref_opus_repacketizer_create(); ref_opus_repacketizer_init(rp);
+  int sig=vc_below(r,VS_NFINITE); if(joint) sig=vc_chance(r,1,2)?VS_VOICED:VS_SPEECHLIKE; vc_siggen g; vs_init(&g,sig,eFs,ch,(float)(0.1+0.8*vc_unit(r)),vc_next(r)); int fidx=vc_below(r,9); if(starve){ fidx=2+(int)vc_below(r,2); g.kind=vc_chance(r,1,2)?VS_VOICED:VS_SPEECHLIKE; }
+  if(joint){ fidx=2+(int)vc_below(r,4); ref_opus_encoder_ctl(e,OPUS_SET_BANDWIDTH(OPUS_BANDWIDTH_NARROWBAND+(int)vc_below(r,5))); } static float in[5760*2]; static unsigned char buf[1500], grp[1277*48+200]; OpusRepacketizer *rp=ref_opus_repacketizer_create(); ref_opus_repacketizer_init(rp);
   unsigned char *held[8]; int nheld=0; int gtarget=1; long ms48=0; s->n=0; int switches=0;
   while(ms48<(long)want_ms*48&&s->n<MAXPK-2){
     if(joint&&vc_chance(r,1,4)){ fidx=2+(int)vc_below(r,4); ref_opus_encoder_ctl(e,OPUS_SET_BANDWIDTH(OPUS_BANDWIDTH_NARROWBAND+(int)vc_below(r,5))); vc_count("joint_bandwidth_duration_switches",1); }
-    if(!joint){
+    if(!joint&&!starve){
     if(vc_chance(r,1,6)){ mode=vc_chance(r,1,5)?OPUS_AUTO:VK_MODE_SILK+(int)vc_below(r,3); ref_opus_encoder_ctl(e,VK_SET_FORCE_MODE_REQUEST,mode); switches++; }
     if(vc_chance(r,1,10)) ref_opus_encoder_ctl(e,OPUS_SET_BANDWIDTH(vc_chance(r,1,3)?OPUS_AUTO:OPUS_BANDWIDTH_NARROWBAND+(int)vc_below(r,5))); if(ch==2&&vc_chance(r,1,12)) ref_opus_encoder_ctl(e,OPUS_SET_FORCE_CHANNELS(vc_chance(r,1,2)?OPUS_AUTO:1+(int)vc_below(r,2))); if(vc_chance(r,1,10)) fidx=vc_below(r,9); if(vc_chance(r,1,12)) ref_opus_encoder_ctl(e,OPUS_SET_BITRATE(vc_range(r,8000,96000)*ch)); if(vc_chance(r,1,20)){ g.kind=vc_below(r,VS_NFINITE); } }
     int fs=vk_frame_samples(eFs,fidx); vs_fill(&g,in,fs); int len=ref_opus_encode_float(e,in,fs,buf,1500); if(len<=0) break; ms48+=(long)fs*48000/eFs;
